@@ -176,10 +176,10 @@ fn state_sequences<C: OrdColl>(ex: &OrdExec<C>, mon: &OMon, u: i32, keys: &[i32]
     let mut seqs: Vec<Vec<OOp>> = Vec::new();
     if mon.lookup {
         let mut ops = vec![OOp::Sweep, OOp::Empty];
-        for p in 0..=2 * u {
+        for p in -1..2 * u {
             ops.push(OOp::Get { k: p });
         }
-        for p in (-1..=2 * u + 1).filter(|p| !ex.model.contains_key(p)) {
+        for p in (-2..=2 * u).filter(|p| !ex.model.contains_key(p)) {
             ops.push(OOp::Del { k: p });
         }
         ops.push(OOp::Sweep);
@@ -188,7 +188,7 @@ fn state_sequences<C: OrdColl>(ex: &OrdExec<C>, mon: &OMon, u: i32, keys: &[i32]
     }
     if mon.handle {
         let mut ops = Vec::new();
-        for p in -1..=2 * u + 1 {
+        for p in -2..=2 * u {
             ops.push(OOp::Fil { k: p });
             for mode in 0..3 {
                 ops.push(OOp::FilB { k: p, mode });
@@ -196,7 +196,7 @@ fn state_sequences<C: OrdColl>(ex: &OrdExec<C>, mon: &OMon, u: i32, keys: &[i32]
             ops.push(OOp::Rdh { k: p });
         }
         seqs.push(ops);
-        for p in -1..=2 * u + 1 {
+        for p in -2..=2 * u {
             seqs.push(vec![OOp::Wrh { k: p }, OOp::Sweep]);
             seqs.push(vec![OOp::DelH { k: p }, OOp::Sweep]);
         }
@@ -251,8 +251,8 @@ fn closure<C: OrdColl>(cfg: &Cfg, rep: &mut Report, u: i32, hint: usize, set_ind
     let fault_mode = cfg.flag("fault");
     let twin_mode = cfg.flag("twin");
     let mon = if fault_mode || twin_mode { OMon::default() } else { mon };
-    let uni = (0, 2 * u);
-    let keys: Vec<i32> = (0..u).map(|i| 2 * i + 1).collect();
+    let uni = (-1, 2 * u - 1);
+    let keys: Vec<i32> = (0..u).map(|i| 2 * i).collect();
     let base_live = cb::ledger_live();
     let mut truncated = false;
     let mut transitions = 0u64;
@@ -313,7 +313,7 @@ fn closure<C: OrdColl>(cfg: &Cfg, rep: &mut Report, u: i32, hint: usize, set_ind
                             suf.push(OOp::Del { k });
                             suf.push(OOp::Sweep);
                         }
-                        suf.push(OOp::DelH { k: 2 * u });
+                        suf.push(OOp::DelH { k: 2 * u - 1 });
                         suf.push(OOp::Sweep);
                         suf.push(OOp::Clear);
                         let suf_lines: Vec<String> = suf.iter().map(|o| o.line()).collect();
